@@ -13,12 +13,8 @@ use std::io::Write;
 fn main() {
     let args: Vec<String> = std::env::args().collect();
     let cwd = std::env::current_dir().map(|p| p.to_string_lossy().to_string()).unwrap_or_default();
-    if let Ok(j) = std::env::var("FAKE_CARGO_JOURNAL") {
-        if let Ok(mut f) = std::fs::OpenOptions::new().create(true).append(true).open(&j) {
-            let _ = writeln!(f, "{}", serde_json::json!({"cwd": cwd, "argv": &args[1..]}));
-        }
-    }
     let Ok(scn_path) = std::env::var("FAKE_CARGO_SCENARIO") else {
+        journal(&cwd, &args, "stub", &[], Some(0));
         std::process::exit(0);
     };
     let scn: serde_json::Value = std::fs::read_to_string(&scn_path)
@@ -27,10 +23,14 @@ fn main() {
         .unwrap_or(serde_json::Value::Null);
     let sub = args.get(1).map(|s| s.as_str()).unwrap_or("");
     if sub != "test" {
+        journal(&cwd, &args, "non-test", &[], Some(0));
         std::process::exit(0);
     }
     let test_fn = std::path::Path::new(&cwd).file_name().map(|s| s.to_string_lossy().to_string()).unwrap_or_default();
     let fault = scn["faults"][&test_fn].as_str().unwrap_or("");
+    if !fault.is_empty() {
+        journal(&cwd, &args, fault, &[], None);
+    }
     match fault {
         "build_fail" => {
             eprintln!("   Compiling test_runner v0.1.0 ({cwd})\nerror[E0425]: cannot find value `x` in this scope\nerror: could not compile `test_runner` (bin \"test_runner\" test) due to 1 previous error");
@@ -64,7 +64,7 @@ fn main() {
     let mode = scn["mode"].as_str().unwrap_or("told");
     let designed = |name: &str| scn["outcomes"][name].as_str().unwrap_or("pass").to_string();
     match mode {
-        "told" => finish(&[(test_fn.clone(), designed(&test_fn))]),
+        "told" => finish(&cwd, &args, "told", &[(test_fn.clone(), designed(&test_fn))]),
         _ => {
             // "model": a small model of `cargo test` — collect the functions of ./src/main.rs that carry #[test] or
             // #[tokio::test] and "run" them with their designed outcomes; zero tests => exit 0, as the real tool does.
@@ -93,12 +93,27 @@ fn main() {
                 }
                 i += 1;
             }
-            finish(&tests)
+            finish(&cwd, &args, "model", &tests)
         }
     }
 }
 
-fn finish(tests: &[(String, String)]) -> ! {
+/// One JSON line per invocation: where, how, which tests were "run" with which outcome, exit code (null = died).
+fn journal(cwd: &str, args: &[String], mode: &str, ran: &[(String, String)], exit: Option<i32>) {
+    if let Ok(j) = std::env::var("FAKE_CARGO_JOURNAL") {
+        if let Ok(mut f) = std::fs::OpenOptions::new().create(true).append(true).open(&j) {
+            let _ = writeln!(
+                f,
+                "{}",
+                serde_json::json!({"cwd": cwd, "argv": &args[1..], "mode": mode, "ran": ran, "exit": exit})
+            );
+        }
+    }
+}
+
+fn finish(cwd: &str, args: &[String], mode: &str, tests: &[(String, String)]) -> ! {
+    let any_fail = tests.iter().any(|(_, o)| o != "pass");
+    journal(cwd, args, mode, tests, Some(if any_fail { 101 } else { 0 }));
     println!("\nrunning {} test{}", tests.len(), if tests.len() == 1 { "" } else { "s" });
     let mut failed = Vec::new();
     for (name, outcome) in tests {
